@@ -54,6 +54,20 @@ def expect_equiv(rep, rule, inst, key, got, ref, body, what, leaf_eq=D.default_l
 
 # ------------------------------------------------------------------ C06
 
+def ne_override(rep, f, rule, lt_, rt_):
+    """an overridden PartialEq::ne is an entry point of its own: it has to be the negation of eq (used by C06, and by C12 for
+    `NAN != NAN`)"""
+    eqi = "<%s as core::cmp::PartialEq<%s>>::eq" % (lt_, rt_)
+    nei = "<%s as core::cmp::PartialEq<%s>>::ne" % (lt_, rt_)
+    if f.get(nei) is None:
+        return 0
+    te, be = get_tree(rep, f, rule, eqi)
+    tn, bn = get_tree(rep, f, rule, nei, inline_extra=(eqi,))
+    if te is not None and tn is not None:
+        neg = D.map_leaves(D.expand_bool_leaves(te), lambda l: RET(FALSE if l[1] is TRUE else TRUE) if l[0] == "leaf" and l[1] in (TRUE, FALSE) else l)
+        expect_equiv(rep, rule, nei, "override:" + nei, D.expand_bool_leaves(tn), neg, bn, "ne(a, b) == !eq(a, b)")
+    return 1
+
 def nan_screen(rep, f, rule, only_eq=False):
     """with any one word NaN, eq is false / partial_cmp is None on every outcome class"""
     a, b = P(0), P(1)
@@ -141,15 +155,7 @@ def check_C06(ctx, rep):
                 continue
             derived = D.map_leaves(D.expand_ordering_leaves(tp), lambda l: RET(TRUE if l[1] in D.OPS[meth] else FALSE) if l[0] == "ord" else l)
             expect_equiv(rep, "R12o", ident, "override:" + ident, D.expand_bool_leaves(tm), derived, bm, "%s(a, b) == matches!(partial_cmp(a, b), %s)" % (meth, sorted(D.OPS[meth])))
-        eqi = "<%s as core::cmp::PartialEq<%s>>::eq" % (lt_, rt_)
-        nei = "<%s as core::cmp::PartialEq<%s>>::ne" % (lt_, rt_)
-        if f.get(nei) is not None:
-            n_over += 1
-            te, be = get_tree(rep, f, "R12o", eqi)
-            tn, bn = get_tree(rep, f, "R12o", nei, inline_extra=(eqi,))
-            if te is not None and tn is not None:
-                neg = D.map_leaves(D.expand_bool_leaves(te), lambda l: RET(FALSE if l[1] is TRUE else TRUE) if l[0] == "leaf" and l[1] in (TRUE, FALSE) else l)
-                expect_equiv(rep, "R12o", nei, "override:" + nei, D.expand_bool_leaves(tn), neg, bn, "ne(a, b) == !eq(a, b)")
+        n_over += ne_override(rep, f, "R12o", lt_, rt_)
     rep.check(True, "R12o", "comparison operator overrides", "x", "", detail="%d overridden lt/le/gt/ge/ne bodies compared with partial_cmp / eq" % n_over, nontrivial=False)
     # R12v the link used by the comparison theory: a value with a NaN word is not valid
     t, body = get_tree(rep, f, "R12v", "TwoFloat::is_valid")
@@ -201,7 +207,7 @@ def check_C06(ctx, rep):
             return l1 == l2
         expect_equiv(rep, "R12d", "signum", "sign:signum", t, ref, body, "valid: +-1 by the sign bit of hi; invalid: NaN", leaf_eq=leq)
     from .rules_c10 import check_delegation_subset
-    check_delegation_subset(rep, f, {"min", "max", "abs", "signum", "is_sign_positive", "is_sign_negative", "is_positive", "is_negative"})
+    check_delegation_subset(rep, f, {"min", "max", "abs", "signum", "copysign", "is_sign_positive", "is_sign_negative", "is_positive", "is_negative"})
     rep.floor("R12", len([o for o in rep.obl if o["rule"] == "R12"]), 8, "NaN screen instances")
     rep.floor("R12b-d", len([o for o in rep.obl if o["rule"] in ("R12b", "R12c", "R12d")]), 13, "comparison / sign decision tables")
 
